@@ -45,7 +45,13 @@ func ConstraintErrorAddPathSegment(err error, pathSegment string) error {
 	if errors.As(err, &c) {
 		return c.AddPathSegment(pathSegment)
 	}
-	return err
+	// Not a constraint error yet (for example a number parsing error from a leaf type): wrap it, otherwise the
+	// path to the offending element would be lost.
+	return &ConstraintError{
+		Message: "Invalid value",
+		Path:    []string{pathSegment},
+		Cause:   err,
+	}
 }
 
 // NoSuchStepError indicates that the given step is not supported by the plugin.
